@@ -41,6 +41,9 @@ _o = types.SimpleNamespace(
     os_write=os.write, os_close=os.close, lstat=os.lstat, stat=os.stat,
 )
 
+import signal as _signal
+_o_alarm, _o_setitimer = _signal.alarm, _signal.setitimer
+
 PURGE_PREFIXES = ("pel", "io_drawer", "udparsers", "srcparsers", "calloutparsers", "pel_registry")
 
 
@@ -82,6 +85,7 @@ class Events:
         self.fired = []          # faults that actually fired
         self.crashed = False
         self.n = 0
+        self.on_event = None     # virtual clock hook: called before every event (timers may fire there)
 
     def point(self, kind, rel, info=None):
         """Register an event about to happen.  Returns the fault to apply by
@@ -89,6 +93,8 @@ class Events:
         The caller calls `.after(idx)` once the event has been performed."""
         if self.crashed:
             raise SimCrash("dead")
+        if self.on_event is not None:
+            self.on_event()
         idx = self.n
         self.n += 1
         last = self.log[-1] if self.log else None
@@ -373,6 +379,10 @@ class SimFS:
         self.mounts = []         # [(absolute path as the tool sees it, real path below the scratch root)]
         self.share = None        # (absolute path as the tool sees it, real path outside the root)
         self.active = False      # seams only interpose while an op is running
+        self.vclock = 0.0        # virtual seconds
+        self.tick = 0.0          # virtual seconds that pass per I/O event ("slow storage")
+        self.alarm_due = None    # deadline of the armed interval timer, if any
+        self.timer_stats = {}
 
     # ---- path classification
     def outside(self, p):
@@ -651,6 +661,9 @@ class SimFS:
             setattr(os, k, v)
         builtins.open = self.s_open
         io.open = self.s_open
+        import signal
+        signal.alarm = self.s_alarm
+        signal.setitimer = self.s_setitimer
         self.installed = True
 
     def uninstall(self):
@@ -660,11 +673,51 @@ class SimFS:
             setattr(os, k, v)
         builtins.open = _o.open
         io.open = _o.io_open
+        import signal
+        signal.alarm = _o_alarm
+        signal.setitimer = _o_setitimer
+        try:
+            if signal.getsignal(signal.SIGALRM) not in (signal.SIG_DFL, signal.SIG_IGN, None):
+                signal.signal(signal.SIGALRM, signal.SIG_DFL)       # a handler the code under test left behind
+        except ValueError:
+            pass
         self.installed = False
 
     # ---- per-op reset
+    # ---- virtual clock and interval timer (signal.alarm / setitimer): the only clock the code under test could
+    # arm.  Time passes only as the plan says (`tick` seconds of slow storage per I/O event); an armed timer whose
+    # deadline is reached is delivered at the next I/O event by calling the registered SIGALRM handler there.
+    def s_alarm(self, seconds):
+        left = 0 if self.alarm_due is None else max(1, int(self.alarm_due - self.vclock + 0.999))
+        self.alarm_due = (self.vclock + seconds) if seconds else None
+        self.timer_stats["armed" if seconds else "cancelled"] = self.timer_stats.get("armed" if seconds else "cancelled", 0) + 1
+        return left
+
+    def s_setitimer(self, which, seconds, interval=0.0):
+        import signal
+        if which != signal.ITIMER_REAL:
+            return _o_setitimer(which, seconds, interval)
+        left = 0.0 if self.alarm_due is None else max(0.0, self.alarm_due - self.vclock)
+        self.alarm_due = (self.vclock + seconds) if seconds else None
+        self.timer_stats["armed" if seconds else "cancelled"] = self.timer_stats.get("armed" if seconds else "cancelled", 0) + 1
+        return (left, 0.0)
+
+    def _tick(self):
+        self.vclock += self.tick
+        if self.alarm_due is not None and self.vclock >= self.alarm_due:
+            import signal
+            self.alarm_due = None
+            self.timer_stats["fired"] = self.timer_stats.get("fired", 0) + 1
+            h = signal.getsignal(signal.SIGALRM)
+            if callable(h):
+                h(signal.SIGALRM, sys._getframe(1))
+            elif h == signal.SIG_DFL:
+                self.ev.crashed = True
+                raise SimCrash("killed by SIGALRM")
+
     def begin_op(self, order, faults, file_bufsize):
         self.ev = Events(faults)
+        self.ev.on_event = self._tick if (self.tick or self.alarm_due is not None) else None
         self.order = order or {"policy": "asc", "key": 0}
         self.file_bufsize = file_bufsize
         self.open_files = []
@@ -1028,6 +1081,8 @@ class World:
         then put the long-lived module set back untouched"""
         saved = {n: m for n, m in sys.modules.items() if n.split(".", 1)[0] in PURGE_PREFIXES}
         lived = self.peltool
+        timer = (self.fs.alarm_due, self.fs.vclock, _signal.getsignal(_signal.SIGALRM))
+        self.fs.alarm_due = None
         purge_modules()
         importlib.invalidate_caches()
         err, saved_err = io.StringIO(), sys.stderr
@@ -1042,6 +1097,12 @@ class World:
             purge_modules()
             sys.modules.update(saved)
             self.peltool = lived
+            self.fs.alarm_due, self.fs.vclock = timer[0], timer[1]
+            try:
+                if _signal.getsignal(_signal.SIGALRM) is not timer[2] and timer[2] is not None:
+                    _signal.signal(_signal.SIGALRM, timer[2])
+            except ValueError:
+                pass
 
     def stop(self):
         self.fs.uninstall()
@@ -1126,6 +1187,7 @@ class World:
         if self.fresh_per_run:
             # every CLI invocation is its own process: nothing survives from the previous one
             self.fresh_modules()
+            self.fs.alarm_due = None
         fs = self.fs
         fs.begin_op(order, faults, file_bufsize)
         out = SimStream(fs.ev, stdout_bufsize, "stdout", stdout_encoding)
